@@ -261,7 +261,7 @@ def simplify : Nat → Opts → Expr → R Expr
     match e with
     | .cst .. | .reg .. | .ext .. | .top .. | .vecw .. => .ok e
     | .mem .. | .ptr .. => .error .unmodelled
-    | .slc x pos size sf ref => do
+    | .slc x pos size sf ref ety => do
         let x ← simplify fuel o x
         if !x.isDef then return mkTop size
         if x.isCmp || x.isCst then
@@ -274,16 +274,16 @@ def simplify : Nat → Opts → Expr → R Expr
               let r ← getitem fuel xr pos (pos + size)
               let l ← getitem fuel xl pos (pos + size)
               callOp fuel xo l r
-            else return .slc x pos size sf ref
+            else return .slc x pos size sf ref ety
         | .uop xo xr _ _ _ =>
             if xo.type == 2 || ((xo == Op.add || xo == Op.sub) && pos == 0) then
               let r ← getitem fuel xr pos (pos + size)
               callUop fuel xo r
-            else return .slc x pos size sf ref
+            else return .slc x pos size sf ref ety
         | .vec l _ _ => do
             let l' ← l.mapM (fun y => getitem fuel y pos (pos + size))
             mkVec l'
-        | _ => return .slc x pos size sf ref
+        | _ => return .slc x pos size sf ref ety
     | .comp size sf parts => do
         let parts ← parts.mapM (fun (p : Part) => do
           let v ← simplify fuel o p.2.2
@@ -664,7 +664,7 @@ def getitem : Nat → Expr → Int → Int → R Expr
               | [(_, _, p)] => return p
               | _ => return .comp rs rf rparts
           | _ => throw .unmodelled
-    | .slc x' p s _ _ =>
+    | .slc x' p s _ _ _ =>
         if sta == 0 && sto == s then return x
         else slicer fuel x' (p + sta) (sto - sta)
     | .mem .. => throw .unmodelled
@@ -697,9 +697,9 @@ def mkSlc : Nat → Expr → Nat → Nat → R Expr
     | .slc .. => do
         let res ← getitem fuel x pos (pos + size)
         match res with
-        | .slc x2 p2 _ _ _ => return .slc x2 p2 size x.sf none
+        | .slc x2 p2 _ _ _ _ => return .slc x2 p2 size x.sf none (slcEty x2)
         | _ => throw .attr
-    | _ => .ok (.slc x pos size x.sf none)
+    | _ => .ok (.slc x pos size x.sf none (slcEty x))
 
 /-- `c[sta:sto] = v` on a `comp` `c`; returns the updated comp. -/
 def setitem : Nat → Expr → Int → Int → Expr → R Expr
